@@ -720,7 +720,7 @@ func init() {
 	register(&Check{
 		ID: "C09", Level: "exploration", MinNontriv: 10,
 		Anchors: []string{"pkg/adaptation/plugin.go", "pkg/stub/stub.go", "pkg/adaptation/adaptation.go"},
-		Rule:    "states of 0 to 20000 pods/containers with size distributions: all tiny, uniform 1-64 KiB, one pod + many 60 KiB containers (and the mirror), few pods + 1 MiB containers (and the mirror), one object just under / over the 4 MiB limit, totals within +-2000 bytes of the limit, random skewed/large/mixed; each against a stub plugin (reassembled handler arguments) and a raw protocol peer (per-message chunk log); oracle: objects <= 64 KiB must synchronize exactly once with the exact ordered state, updates reaching the runtime, plugin active afterwards; larger objects may instead fail cleanly (callback error, plugin never receives an event); never a panic, partial state, empty-chunk loop or hang; a few-large grid (16 pod/container splits x totals 1.03-1.08 x limit, thorough 7 factors); must-succeed also when the eight largest objects fit one message; three probe plugins launched by the runtime synchronized at Start with a split state (state hash and returned updates); a plugin type without a Synchronize handler against a split state; a peer that answers Configure and then stops reading, with a 3 MB state and a 700 ms request timeout (clean failure within the bound, the next plugin registers); distinct = distinct (shape, peer, outcome)",
+		Rule:    "states of 0 to 20000 pods/containers with size distributions: all tiny, uniform 1-64 KiB, one pod + many 60 KiB containers (and the mirror), few pods + 1 MiB containers (and the mirror), one object just under / over the 4 MiB limit, totals within +-2000 bytes of the limit, random skewed/large/mixed; each against a stub plugin (reassembled handler arguments) and a raw protocol peer (per-message chunk log); oracle: objects <= 64 KiB must synchronize exactly once with the exact ordered state, updates reaching the runtime, plugin active afterwards; larger objects may instead fail cleanly (callback error, plugin never receives an event); never a panic, partial state, empty-chunk loop or hang; a few-large grid (16 pod/container splits x totals 1.03-1.08 x limit, thorough 7 factors); must-succeed also when the eight largest objects fit one message; three probe plugins launched by the runtime synchronized at Start with a split state (state hash and returned updates); a plugin type without a Synchronize handler against a split state; a peer that answers Configure and then stops reading, with a 3 MB state and a 700 ms request timeout (clean failure within the bound, the next plugin registers); a plugin whose Synchronize handler issues an unsolicited update (split and small state); distinct = distinct (shape, peer, outcome)",
 		Assumptions: []string{
 			"'individually transmissible' is taken as <= 64 KiB per object for the must-succeed tier; for larger objects either exact delivery or a clean failure is accepted",
 			"request timeout is 30 s so that the largest generated state (about 30 MB) can be transmitted on a loaded machine",
